@@ -223,63 +223,8 @@ open Barril.Gen
 
 private def sq (c u : String) : Except ErrKind SimpleQ := poscDb.simpleQuantity (Sym.ofString c) (Sym.ofString u)
 
-/-- quantities are built (so `Built` is inhabited), affine and gauge units included -/
-example : (sq "length" "m").toBool ∧ (sq "length" "cm").toBool ∧ (sq "temperature" "degC").toBool
-    ∧ (sq "temperature" "K").toBool ∧ (sq "pressure" "psig").toBool ∧ (sq "depth" "ft").toBool := by
-  decide +kernel
-
-/-- 1 m against 100 cm, both directions: no `>`, both `<=` (the defect the property text quotes) -/
-example : (match sq "length" "m", sq "length" "cm" with
-    | .ok qm, .ok qc =>
-      some ((Sc.mk 1 qm).order poscDb .gt ⟨100, qc⟩, (Sc.mk 100 qc).order poscDb .gt ⟨1, qm⟩,
-            (Sc.mk 1 qm).order poscDb .le ⟨100, qc⟩, (Sc.mk 100 qc).order poscDb .le ⟨1, qm⟩)
-    | _, _ => none) = some (.ok false, .ok false, .ok true, .ok true) := by decide +kernel
-
-/-- an affine pair: 0 degC < 274 K, and 0 degC >= 273.15 K -/
-example : (match sq "temperature" "degC", sq "temperature" "K" with
-    | .ok qc, .ok qk =>
-      some ((Sc.mk 0 qc).order poscDb .lt ⟨274, qk⟩, (Sc.mk 0 qc).order poscDb .ge ⟨R 27315 100, qk⟩)
-    | _, _ => none) = some (.ok true, .ok true) := by decide +kernel
-
-/-- different quantity types: TypeError -/
-example : (match sq "length" "m", sq "time" "s" with
-    | .ok qm, .ok qs => some ((Sc.mk 1 qm).order poscDb .lt ⟨1, qs⟩)
-    | _, _ => none) = some (.error .type) := by decide +kernel
-
-/-- a FractionScalar pair whose numerator is kept: 1 1/2 m against 150 cm is a tie -/
-example : (match sq "length" "m", sq "length" "cm" with
-    | .ok qm, .ok qc =>
-      some ((FSc.mk ⟨1, 1 / 2⟩ qm).order poscDb (1 / 100000000) .le ⟨⟨150, 0⟩, qc⟩,
-            (FSc.mk ⟨150, 0⟩ qc).order poscDb (1 / 100000000) .le ⟨⟨1, 1 / 2⟩, qm⟩,
-            (FSc.mk ⟨1, 1 / 2⟩ qm).order poscDb (1 / 100000000) .lt ⟨⟨150, 0⟩, qc⟩)
-    | _, _ => none) = some (.ok true, .ok true, .ok false) := by decide +kernel
-
 private def qM : Qty := ⟨[⟨Sym.ofString "length", Sym.ofString "m", 1, false⟩], 0, Sym.ofString "m"⟩
 private def qMtuple : Qty := ⟨[⟨Sym.ofString "length", Sym.ofString "m", 1, true⟩], 0, Sym.ofString "m"⟩
-
-/-- FixedArray against Array with equal content: `False` both ways (reflected method first one way) -/
-example : pyEq 0 (.arr ⟨[1, 2], .list, qM, some 2⟩) (.arr ⟨[1, 2], .tuple, qM, none⟩) false = .ok false
-    ∧ pyEq 0 (.arr ⟨[1, 2], .tuple, qM, none⟩) (.arr ⟨[1, 2], .list, qM, some 2⟩) false = .ok false
-    ∧ pyEq 0 (.arr ⟨[1, 2], .tuple, qM, none⟩) (.arr ⟨[1, 2], .ndarray, qM, none⟩) false = .ok true := by
-  decide +kernel
-
-/-- the guards are what keeps `==` from raising: the unguarded attribute reads do fail -/
-example : Obj.dimension (.arr ⟨[1, 2], .tuple, qM, none⟩) = .error .other
-    ∧ fractionOldCmp 0 (1 / 2) .none = .error .other := by decide +kernel
-
-/-- `Fraction(1, 2) == None` is False, `Fraction(1, 2) == 0.5` and `0.5 == Fraction(1, 2)` are True -/
-example : pyEq (1 / 100000000) (.fraction (1 / 2)) .none false = .ok false
-    ∧ pyEq (1 / 100000000) (.fraction (1 / 2)) (.num (1 / 2)) false = .ok true
-    ∧ pyEq (1 / 100000000) (.num (1 / 2)) (.fraction (1 / 2)) false = .ok true := by decide +kernel
-
-/-- equal Scalars (int 1 and float 1.0) hash alike; list- and tuple-valued quantities are unequal
-yet hash alike; containers are unhashable -/
-example : pyEq 0 (.scalar 1 qM) (.scalar 1 qM) false = .ok true
-    ∧ pyHash (.scalar 1 qM) = .ok (.scalar 1 [(Sym.ofString "length", Sym.ofString "m", 1)] 0)
-    ∧ pyEq 0 (.quantity qM) (.quantity qMtuple) false = .ok false
-    ∧ pyHash (.quantity qM) = pyHash (.quantity qMtuple)
-    ∧ pyHash (.arr ⟨[1, 2], .tuple, qM, none⟩) = .error .type
-    ∧ pyHash (.list [1]) = .error .type := by decide +kernel
 
 end examples
 
